@@ -15,4 +15,13 @@ import EpModel.Driver.EncNet
 import EpModel.Driver.Set
 import EpModel.Driver.Build
 import EpModel.Driver.Dec
+import EpModel.Model.Codec.LinkCommon
+import EpModel.Model.Codec.LinkEth
+import EpModel.Model.Codec.LinkArp
+import EpModel.Model.Codec.TpUdpTcp
+import EpModel.Model.Codec.TpIcmp
+import EpModel.Model.Codec.TpIgmp
+import EpModel.Lemmas.CodecLink
+import EpModel.Lemmas.CodecLinkBits
+import EpModel.Props.C08
 import EpModel.Props.C09
